@@ -156,11 +156,12 @@ def _none_to_flag(r):
 
 def configs(tier):
     ids = sorted({c["name"] for c in cases(tier)})
-    return [{"fn": n} for n in ids]
+    return [{"fn": n} for n in ids] + [{"fn": "generic"}]
 
 
 def canaries(tier):
-    return [({"fn": "inner_prod(vec,vec)"}, "spec-conjugates-right-operand"), ({"fn": "kronecker_prod"}, "spec-swapped-order")]
+    return [({"fn": "inner_prod(vec,vec)"}, "spec-conjugates-right-operand"), ({"fn": "kronecker_prod"}, "spec-swapped-order"),
+            ({"fn": "generic"}, "generic-spec-conjugates-right-operand")]
 
 
 def _operands(case, mk):
@@ -177,8 +178,21 @@ def _operands(case, mk):
     return ops
 
 
+def _generic_cases():
+    from qucumber.utils import cplx
+    from contracts import gcplx
+    return gcplx.cases(cplx)
+
+
 def run_config(ctx, cfg):
     canary = getattr(ctx, "canary", None)
+    if cfg["fn"] == "generic":
+        # the same functions once more, on operands of symbolic shape: holds for every size (front end G)
+        from contracts import generic
+        for c in _generic_cases():
+            ctx.under_contract("cplx." + c.name.split("[")[0].split("(")[0])
+        generic.run_cases(ctx, _generic_cases(), "", canary=canary)
+        return
     ctx.under_contract("cplx." + cfg["fn"].split("(")[0])
     for case in cases(ctx.tier):
         if case["name"] != cfg["fn"]:
@@ -244,6 +258,9 @@ def run_config(ctx, cfg):
 
 
 def replay(o):
+    if o["cfg"].get("fn") == "generic":
+        from contracts import generic
+        return generic.replay_case(_generic_cases(), o)
     from drivers import C15 as D
     env = (o.get("witness") or {}).get("env") or {}
     return D.replay_case(o["cfg"]["fn"], o.get("short") or "", env)
